@@ -14,7 +14,7 @@ class C16(E2ECheck):
     id = 'C16'
     fuzz = {'quick': (2, 3000), 'thorough': (16, 60000)}
     quick_examples = 48000
-    thorough_examples = 1000000
+    thorough_examples = 600000
     profile = {
         'types': ['download'], 'dsts': ['nonseek', 'nonseek', 'special'],
         'ntransfers': (1, 2), 'subs': {'max': 1, 'size': True},
